@@ -55,8 +55,20 @@ fn get_set_cached<T: Clone>(
     key: &std::path::Path,
     value_func: impl FnOnce() -> T,
 ) -> T {
-    let mut lock = cache.lock().expect("cache is poisoned");
-    lock.entry(key.into()).or_insert_with(value_func).clone()
+    // The value is computed without holding the lock: `value_func` panics on unreadable or
+    // unparsable files, and a panic inside the critical section would poison the cache for
+    // every later call in the process.
+    if let Some(value) = lock_cache(cache).get(key) {
+        return value.clone();
+    }
+
+    let value = value_func();
+
+    lock_cache(cache).entry(key.into()).or_insert(value).clone()
+}
+
+fn lock_cache<T>(cache: &CacheMap<T>) -> std::sync::MutexGuard<'_, BTreeMap<std::path::PathBuf, T>> {
+    cache.lock().unwrap_or_else(|poisoned| poisoned.into_inner())
 }
 
 fn query_document(query_string: &str) -> Result<QueryDocument, BoxError> {
